@@ -12,6 +12,8 @@ import ClairModel.Model.OfflineV1
     store <order> <faults>                        -> ok|err lines=<l,…> left=<r,…> | bad-order
                                                      (fault `ref:k`: the disk buffer of `ref` fails after k lines)
     entries                                       -> ref/upd/fp of every key of Entries(), by ref
+    tear                                          -> ok   (the writer took part of a line and failed)
+    newfile                                       -> ok   (later Store calls write to a new, empty output)
     load                                          -> entries of everything written so far
     loadraw <item;item;…>                         -> entries of a hand-made file
     latest <v|e>                                  -> <r>
@@ -105,6 +107,7 @@ def out : Out → String
   | .hang => "hang"
   | .badOrder => "bad-order"
   | .err => "err"
+  | .done => "ok"
   | .stored ok ls left => s!"{if ok then "ok" else "err"} lines={showLines ls} left={showNats left}"
 
 /-! zip-of-zips -/
@@ -176,6 +179,8 @@ def stepLine (w : World) (l : String) : World × String :=
     match nats o, faults fs with
     | some o, some fs => let (w', o) := step w (.store o fs); (w', out o)
     | _, _ => (w, "bad-op")
+  | ["tear"] => let (w', o) := step w .tear; (w', out o)
+  | ["newfile"] => let (w', o) := step w .newfile; (w', out o)
   | ["entries"] =>
     let es := w.store.entries.mergeSort (fun a b => decide (a.ref ≤ b.ref))
     (w, if es.isEmpty then "-" else ",".intercalate (es.map fun e => s!"{e.ref}/{e.updater}/{e.fp}"))
